@@ -37,6 +37,8 @@ type FifoBuffer[T any] struct {
 	cond sync.Cond
 
 	buffer []T
+	// set by ReleaseGoroutines: from then on an empty buffer is not waited for
+	released bool
 }
 
 func NewFifoBuffer[T any]() (result FifoBuffer[T]) {
@@ -60,6 +62,10 @@ func (this *FifoBuffer[T]) PopMultiple(numberToPop uint) (result []T) {
 	defer this.cond.L.Unlock()
 
 	for len(this.buffer) == 0 {
+		if this.released {
+			// nothing will be pushed anymore: a caller that comes to wait after the release must not wait forever
+			return
+		}
 		this.cond.Wait()
 		// this check is used when ReleaseGoroutines is called on waiting goroutine
 		if len(this.buffer) == 0 {
@@ -82,6 +88,7 @@ func (this *FifoBuffer[T]) Length() int {
 
 func (this *FifoBuffer[T]) ReleaseGoroutines() {
 	this.cond.L.Lock()
+	this.released = true
 	this.cond.Broadcast()
 	this.cond.L.Unlock()
 }
